@@ -111,7 +111,7 @@ func c12Cut(rng *Rng, stream []byte) [][]byte {
 
 func c12Stream(c *Ctx) {
 	r := c.R
-	n := c.N(1200, 40000)
+	n := c.N(3000, 40000)
 	type obs struct {
 		cs       c12StreamCase
 		stream   []byte
@@ -707,7 +707,7 @@ func c12EndToEnd(c *Ctx) {
 	r := c.R
 	c12Directed(c)
 	c12RequestRace(c)
-	nsc := c.N(22, 600)
+	nsc := c.N(45, 600)
 	for si := 0; si < nsc; si++ {
 		if r.Failed() && len(r.Violations)+len(r.Disagreements) > 6 {
 			return
@@ -1591,7 +1591,7 @@ type c12HCase struct {
 
 func c12Handler(c *Ctx) {
 	r := c.R
-	n := c.N(800, 30000)
+	n := c.N(2000, 30000)
 	// payload: a valid EDF string so that a parsed frame is routed
 	pay := lib2Encode("hello")
 	types := []byte{101, 102, 103, 104, 105, 106, 107, 121, 122, 123, 124, 129, 130, 181, 182, 183, 184, 185, 186}
